@@ -110,6 +110,10 @@ pub trait Prop: Sync + Send + 'static {
     fn assumptions(&self) -> Vec<String> {
         Vec::new()
     }
+    /// upper bound on worker threads (timing-sensitive engines)
+    fn max_threads(&self) -> usize {
+        usize::MAX
+    }
     /// true if `cases` covers a finite space completely
     fn exhaustive(&self, _tier: Tier) -> bool {
         false
@@ -309,7 +313,10 @@ impl<P: Prop> Part for PropPart<P> {
         // 2. generated cases
         let cases = prop.cases(ctx.tier);
         let threads = if prop.parallel() {
-            ctx.threads.max(1).min(cases.max(1) as usize)
+            ctx.threads
+                .max(1)
+                .min(cases.max(1) as usize)
+                .min(prop.max_threads().max(1))
         } else {
             1
         };
